@@ -9,7 +9,7 @@ use std::ops::Range;
 verus! {
 //@include ../shim/order.rs
 //@include ../shim/lane.rs
-//@include ../shim/slices_min.rs
+//@include ../shim/slices.rs
 //@include ../shim/bins_types.rs
 
 //@include parts/edges_from.part.rs
